@@ -158,6 +158,12 @@ class Pseudo2NetCDF:
         ):
             # in-memory masked target keeps the mask
             nvar[:] = pvar[...]
+        elif isinstance(pvar[...], MaskedArray) and (
+            hasattr(nvar, 'scale_factor') or hasattr(nvar, 'add_offset')
+        ):
+            # packed variable: the library fills masked cells after packing
+            # (a filled value would be packed, too, and come back unmasked)
+            nvar[:] = pvar[...]
         elif isinstance(pvar[...], MaskedArray):
             # masked cells must hold the value the file declares as _FillValue
             nvar[:] = pvar[...].filled(getattr(nvar, '_FillValue', getattr(
